@@ -797,3 +797,174 @@ Qed.
 (* the linear image of an edge path is a valid linear path *)
 Theorem edge_path_valid_linear inputs ep : valid_lin (length inputs) (edge_path_to_linear ep inputs).
 Proof. unfold edge_path_to_linear. apply ssa_to_linear_valid, edge_path_valid_ssa. Qed.
+
+(* ------------------------------------------------------------------ *)
+(* what remains live: the classes of "connected through a processed index" *)
+From Coq Require Import Relations.
+
+Lemma concat_snd_partition {B} (f : nat * list B -> bool) (l : list (nat * list B)) :
+  Permutation (concat (map snd l)) (concat (map snd (filter (fun t => negb (f t)) l)) ++ concat (map snd (filter f l))).
+Proof.
+  induction l as [|t l IH]; [reflexivity|]. cbn [map concat filter]. destruct (f t); cbn [negb map concat].
+  - rewrite IH. rewrite Permutation_app_swap_app. reflexivity.
+  - rewrite IH, app_assoc. reflexivity.
+Qed.
+
+Lemma concat_unique_owner {B} (l : list (nat * list B)) : NoDup (concat (map snd l)) ->
+  forall t1 t2 b, In t1 l -> In t2 l -> In b (snd t1) -> In b (snd t2) -> t1 = t2.
+Proof.
+  induction l as [|t l IH]; intros Hnd t1 t2 b H1 H2 Hb1 Hb2; [destruct H1|]. cbn [map concat] in Hnd.
+  assert (Hl : NoDup (concat (map snd l))) by (clear -Hnd; induction (snd t) as [|x a IHa]; [exact Hnd|inversion Hnd; auto]).
+  assert (Hdisj : forall x t', In x (snd t) -> In t' l -> In x (snd t') -> False).
+  { intros x t' Hx Ht' Hx'. assert (Hc : In x (concat (map snd l))) by (apply in_concat; exists (snd t'); split; [apply in_map, Ht'|exact Hx']).
+    clear -Hnd Hx Hc. induction (snd t) as [|y a IHa]; [destruct Hx|]. cbn [app] in Hnd. inversion Hnd as [|? ? Hn Hnd']; subst.
+    destruct Hx as [->|Hx]; [apply Hn, in_or_app; right; exact Hc|apply IHa; assumption]. }
+  destruct H1 as [<-|H1], H2 as [<-|H2]; [reflexivity| | |apply (IH Hl t1 t2 b); assumption].
+  - exfalso. apply (Hdisj b t2 Hb1 H2 Hb2).
+  - exfalso. apply (Hdisj b t1 Hb2 H1 Hb1).
+Qed.
+
+Section Edge7.
+Variable inputs : list (list ix).
+Notation N := (length inputs).
+
+Definition linked (P : list ix) (a b : nat) : Prop :=
+  exists j, In j P /\ In j (nth a inputs []) /\ In j (nth b inputs []).
+Definition conn (P : list ix) : nat -> nat -> Prop := clos_refl_sym_trans nat (linked P).
+Definition same_live (live : live_t) (a b : nat) : Prop := exists t, In t live /\ In a (snd t) /\ In b (snd t).
+
+Lemma conn_mono P P' a b : incl P P' -> conn P a b -> conn P' a b.
+Proof.
+  intros Hi H. induction H as [x y (j & Hj & H1 & H2)|x|x y _ IH|x y z _ IH1 _ IH2].
+  - apply rst_step. exists j. split; [apply Hi, Hj|auto].
+  - apply rst_refl.
+  - apply rst_sym, IH.
+  - eapply rst_trans; eassumption.
+Qed.
+
+Lemma carries_iff lv j : carries inputs lv j = true <-> exists k, In k lv /\ In j (nth k inputs []).
+Proof. unfold carries. rewrite existsb_exists. split; intros (k & Hk & H); exists k; (split; [exact Hk|]); apply memb_In; exact H. Qed.
+
+Record Comp (P : list ix) (sp : spst) : Prop := {
+  w_part : Permutation (concat (map snd (sp_live sp))) (seq 0 N);
+  w_conn : forall t a b, In t (sp_live sp) -> In a (snd t) -> In b (snd t) -> conn P a b;
+  w_link : forall j a b, In j P -> In j (nth a inputs []) -> In j (nth b inputs []) -> same_live (sp_live sp) a b
+}.
+
+Lemma comp_init : Comp [] (spec_init inputs).
+Proof.
+  constructor; cbn [spec_init sp_live].
+  - assert (G : forall l, concat (map snd (map (fun i : nat => (i, [i])) l)) = l) by (induction l as [|x l IH]; [reflexivity|]; cbn; rewrite IH; reflexivity).
+    rewrite G. reflexivity.
+  - intros t a b Ht Ha Hb. apply in_map_iff in Ht. destruct Ht as (i & <- & _). cbn [snd] in *. destruct Ha as [<-|[]], Hb as [<-|[]]. apply rst_refl.
+  - intros j a b [].
+Qed.
+
+Lemma owner P sp a : Comp P sp -> a < N -> exists t, In t (sp_live sp) /\ In a (snd t).
+Proof.
+  intros W Ha. assert (H : In a (concat (map snd (sp_live sp)))).
+  { eapply Permutation_in; [symmetry; apply (w_part _ _ W)|]. apply in_seq. lia. }
+  apply in_concat in H. destruct H as (lv & Hlv & Hin). apply in_map_iff in Hlv. destruct Hlv as (t & <- & Ht). exists t. auto.
+Qed.
+
+Lemma in_inputs_lt j a : In j (nth a inputs []) -> a < N.
+Proof. intros H. destruct (Nat.lt_ge_cases a N) as [Hl|Hg]; [exact Hl|]. rewrite nth_overflow in H by exact Hg. destruct H. Qed.
+
+Lemma comp_step P sp j : Comp P sp -> Comp (j :: P) (spec_step inputs sp j).
+Proof.
+  intros W. unfold spec_step. set (live := sp_live sp). set (car := carriers inputs live j).
+  assert (Hnd : NoDup (concat (map snd live))).
+  { eapply Permutation_NoDup; [symmetry; apply (w_part _ _ W)|apply seq_NoDup]. }
+  assert (Hcar : forall t, In t car <-> In t live /\ carries inputs (snd t) j = true) by (intros t; unfold car, carriers; apply filter_In).
+  assert (Hown_j : forall a, In j (nth a inputs []) -> exists t, In t car /\ In a (snd t)).
+  { intros a Ha. destruct (owner P sp a W (in_inputs_lt j a Ha)) as (t & Ht & Hin). exists t. split; [|exact Hin].
+    apply Hcar. split; [exact Ht|]. apply carries_iff. exists a. auto. }
+  destruct (Nat.ltb_spec (length car) 2) as [Hsm|Hbg].
+  - constructor.
+    + apply (w_part _ _ W).
+    + intros t a b Ht Ha Hb. eapply conn_mono; [|apply (w_conn _ _ W t a b Ht Ha Hb)]. intros x Hx. right; exact Hx.
+    + intros j' a b [<-|Hj'] Ha Hb; [|apply (w_link _ _ W j' a b Hj' Ha Hb)].
+      destruct (Hown_j a Ha) as (ta & Hta & Hina). destruct (Hown_j b Hb) as (tb & Htb & Hinb).
+      assert (ta = tb).
+      { destruct car as [|x [|y car']]; [destruct Hta| |cbn in Hsm; lia]. destruct Hta as [<-|[]], Htb as [<-|[]]. reflexivity. }
+      subst tb. exists ta. split; [apply Hcar, Hta|auto].
+  - set (U := concat (map snd car)).
+    assert (HinU : forall a, In a U <-> exists t, In t car /\ In a (snd t)).
+    { intros a. unfold U. rewrite in_concat. split.
+      - intros (lv & Hlv & Ha). apply in_map_iff in Hlv. destruct Hlv as (t & <- & Ht). exists t. auto.
+      - intros (t & Ht & Ha). exists (snd t). split; [apply in_map, Ht|exact Ha]. }
+    constructor; cbn [sp_live].
+    + rewrite map_app, concat_app. cbn [map concat snd]. rewrite app_nil_r. fold U.
+      rewrite <- (w_part _ _ W). symmetry. apply (concat_snd_partition (fun t => carries inputs (snd t) j) live).
+    + intros t a b Ht Ha Hb. apply in_app_iff in Ht. destruct Ht as [Ht|[<-|[]]].
+      * apply filter_In in Ht. eapply conn_mono; [|apply (w_conn _ _ W t a b (proj1 Ht) Ha Hb)]. intros x Hx. right; exact Hx.
+      * cbn [snd] in Ha, Hb. apply HinU in Ha. apply HinU in Hb. destruct Ha as (ta & Hta & Ha). destruct Hb as (tb & Htb & Hb).
+        apply Hcar in Hta. apply Hcar in Htb. destruct Hta as [Hta Hca]. destruct Htb as [Htb Hcb].
+        apply carries_iff in Hca. apply carries_iff in Hcb. destruct Hca as (k1 & Hk1 & Hj1). destruct Hcb as (k2 & Hk2 & Hj2).
+        assert (Hm : incl P (j :: P)) by (intros x Hx; right; exact Hx).
+        apply rst_trans with k1; [apply (conn_mono P _ _ _ Hm), (w_conn _ _ W ta a k1 Hta Ha Hk1)|].
+        apply rst_trans with k2; [apply rst_step; exists j; split; [left; reflexivity|auto]|].
+        apply (conn_mono P _ _ _ Hm), (w_conn _ _ W tb k2 b Htb Hk2 Hb).
+    + intros j' a b Hj' Ha Hb.
+      assert (Hmerged : forall x y, In x U -> In y U -> same_live (filter (fun t => negb (carries inputs (snd t) j)) live ++ [(sp_next sp, U)]) x y).
+      { intros x y Hx Hy. exists (sp_next sp, U). split; [apply in_or_app; right; left; reflexivity|auto]. }
+      destruct Hj' as [<-|Hj'].
+      * apply Hmerged; apply HinU; apply Hown_j; assumption.
+      * destruct (w_link _ _ W j' a b Hj' Ha Hb) as (t & Ht & Hta & Htb).
+        destruct (carries inputs (snd t) j) eqn:Ec.
+        -- apply Hmerged; apply HinU; exists t; (split; [apply Hcar; auto|assumption]).
+        -- exists t. split; [apply in_or_app; left; apply filter_In; split; [exact Ht|rewrite Ec; reflexivity]|auto].
+Qed.
+
+Lemma comp_run ep : Comp (rev ep) (spec_run inputs ep).
+Proof.
+  unfold spec_run.
+  assert (G : forall ep P sp, Comp P sp -> Comp (rev ep ++ P) (fold_left (spec_step inputs) ep sp)).
+  { induction ep0 as [|j ep0 IH]; intros P sp W; [exact W|]. cbn [fold_left rev]. rewrite <- app_assoc. cbn [app].
+    apply IH, comp_step, W. }
+  rewrite <- (app_nil_r (rev ep)). apply G, comp_init.
+Qed.
+
+(* after ANY list of indices: the live tensors partition the leaves, and two leaves share a
+   live tensor exactly when they are connected through the listed indices *)
+Theorem edge_live_components ep :
+  Permutation (concat (map snd (sp_live (spec_run inputs ep)))) (seq 0 N) /\
+  forall a b, a < N -> (same_live (sp_live (spec_run inputs ep)) a b <-> (b < N /\ conn ep a b)).
+Proof.
+  pose proof (comp_run ep) as W. split; [apply (w_part _ _ W)|].
+  set (live := sp_live (spec_run inputs ep)) in *.
+  assert (Hnd : NoDup (concat (map snd live))).
+  { eapply Permutation_NoDup; [symmetry; apply (w_part _ _ W)|apply seq_NoDup]. }
+  assert (Hinc : incl (rev ep) ep) by (intros x Hx; apply in_rev; exact Hx).
+  assert (Hinc' : incl ep (rev ep)) by (intros x Hx; rewrite <- in_rev; exact Hx).
+  assert (Hlt : forall t x, In t live -> In x (snd t) -> x < N).
+  { intros t x Ht Hx. assert (H : In x (seq 0 N)).
+    { eapply Permutation_in; [apply (w_part _ _ W)|]. apply in_concat. exists (snd t). split; [apply in_map, Ht|exact Hx]. }
+    apply in_seq in H. lia. }
+  assert (Hconn : forall a b, conn (rev ep) a b -> (a < N <-> b < N) /\ (a < N -> same_live live a b)).
+  { intros a b H. induction H as [x y (j & Hj & H1 & H2)|x|x y _ [IH1 IH2]|x y z _ [IH1 IH2] _ [IH3 IH4]].
+    - pose proof (in_inputs_lt j x H1). pose proof (in_inputs_lt j y H2). split; [tauto|]. intros _. apply (w_link _ _ W j x y Hj H1 H2).
+    - split; [tauto|]. intros Hx. destruct (owner _ _ x W Hx) as (t & Ht & Hin). exists t. auto.
+    - split; [tauto|]. intros Hy. destruct (IH2 (proj2 IH1 Hy)) as (t & Ht & Ha & Hb). exists t. auto.
+    - split; [tauto|]. intros Hx. destruct (IH2 Hx) as (t1 & Ht1 & Ha1 & Hb1). destruct (IH4 (proj1 IH1 Hx)) as (t2 & Ht2 & Ha2 & Hb2).
+      pose proof (concat_unique_owner live Hnd t1 t2 y Ht1 Ht2 Hb1 Ha2) as E0. subst t2. exists t1. auto. }
+  intros a b Ha. split.
+  - intros (t & Ht & Hta & Htb). split; [apply (Hlt t b Ht Htb)|]. apply (conn_mono (rev ep) ep _ _ Hinc), (w_conn _ _ W t a b Ht Hta Htb).
+  - intros [_ Hc]. apply (Hconn a b (conn_mono ep (rev ep) _ _ Hinc' Hc)), Ha.
+Qed.
+End Edge7.
+
+(* the simulation's step, spelled out *)
+Lemma spec_step_char inputs sp j :
+  let car := filter (fun t => carries inputs (snd t) j) (sp_live sp) in
+  (length car < 2 -> spec_step inputs sp j = sp) /\
+  (2 <= length car ->
+     sp_path (spec_step inputs sp j) = sp_path sp ++ [map fst car] /\
+     sp_live (spec_step inputs sp j) =
+       filter (fun t => negb (carries inputs (snd t) j)) (sp_live sp) ++ [(sp_next sp, concat (map snd car))] /\
+     sp_next (spec_step inputs sp j) = S (sp_next sp)).
+Proof.
+  cbn zeta. unfold spec_step, carriers. split; intros H.
+  - destruct (Nat.ltb_spec (length (filter (fun t => carries inputs (snd t) j) (sp_live sp))) 2); [reflexivity|lia].
+  - destruct (Nat.ltb_spec (length (filter (fun t => carries inputs (snd t) j) (sp_live sp))) 2); [lia|]. cbn. auto.
+Qed.
